@@ -4,6 +4,9 @@ import json, os, re
 from common import *
 
 
+CONFIRM_ATTEMPTS = 12
+
+
 def _get(obj, path, default=None):
     cur = obj
     for p in path.split("."):
@@ -50,10 +53,17 @@ def adjudicate(prop, cases, confirm_fn, limit=12):
         if len(out["violations"]) >= limit:
             continue
         seen_sig.add(sig)
-        got, _ = confirm_fn(c)
+        # the implementation iterates Go maps: an order dependent defect needs
+        # several attempts to show again
+        got = None
+        for attempt in range(CONFIRM_ATTEMPTS):
+            got, _ = confirm_fn(c)
+            if got:
+                break
         if not got:
             out["unconfirmed"] += 1
-            log("mismatch did not reproduce in isolation: %s" % json.dumps(m)[:300])
+            p = save_replay("unconfirmed-" + prop, {"property": prop, "mismatch": m, "case": c})
+            log("mismatch did not reproduce in isolation (%d attempts, kept as %s): %s" % (CONFIRM_ATTEMPTS, p, json.dumps(m)[:300]))
             continue
         path = save_replay(prop, {"property": prop, "mismatch": m, "case": c})
         out["violations"].append({"mismatch": m, "replay": path})
